@@ -110,6 +110,22 @@ def streams(rng, tier, ctx):
                 H.finish(sim, drain=True, max_ticks=100)
             elif i % 5 == 4:
                 sim = hostile_acks(r, it, codec, tier, i)
+            elif i % 6 == 1:
+                # honest endpoints, lossy link, multi-fragment packets of every mode partly lost and passed by the window;
+                # after the link has been loss-free long enough for a sync round, an empty window must hold no allocation
+                cfg = pick_cfg(r)
+                cfg["allocA"] = cfg["allocB"] = r.pick([4 * F, 8 * F, 100_000]); cfg["bwA"] = cfg["bwB"] = 2_000_000
+                sim = Sim(r, cfg, inter=it)
+                lossy = Net(loss=r.pick([200, 400]), latency=r.pick([0, 5_000_000]))
+                def tr(sim, ep):
+                    if ep == "A" and r.chance(1, 2):
+                        sim.send("A", r.below(3), r.pick([0, 1, 1, 2, 3]), r.pick([100, F + 1, 2 * F + 10, 3 * F - 1]))
+                sim.run(r.range(30, 80), r.pick([5_000_000, 20_000_000]), lossy, Net(latency=lossy.latency), tr, probe_every=5)
+                H.finish(sim, drain=True, max_ticks=300)
+                sim.run(r.range(120, 200), 50_000_000, Net(latency=lossy.latency), Net(latency=lossy.latency))
+                sim.settled_at = sum(1 for op in sim.ops if op.endswith(" probe")) + 1
+                for ep in ("A", "B"):
+                    sim.probe(ep)
             elif i % 3 != 2:
                 sim = hostile_mem(r, it, codec, tier, i)
             else:
@@ -136,17 +152,22 @@ def oracle(stream, cid, ops, outs):
     fails = H.trap_failures(ops, outs)
     sim = stream["meta"][cid]
     W = sim.cfg["pw"]
+    nprobe = 0
     for op, o in zip(ops, outs):
         if not (op.endswith(" probe") and o.startswith("fa=")):
             continue
         ep = op.split(" ")[0]
         p = parse_probe(o)
+        nprobe += 1; p["_idx"] = nprobe
         alloc, mx, asm, data = int(p["pr"][2]), int(p["pr"][3]), int(p["pr"][4]), int(p["pr"][5])
         if alloc > mx:
             fails.append({"oracle": "recv_alloc_bound", "detail": "%s: receive alloc %d > limit %d" % (ep, alloc, mx), "signature": {"oracle": "recv_alloc_bound"}}); break
         if asm + data > mx:
             fails.append({"oracle": "recv_held_bound", "detail": "%s: holds %d assembly + %d undelivered payload bytes > limit %d (alloc counter %d)" % (ep, asm, data, mx, alloc),
                           "signature": {"oracle": "recv_held_bound"}}); break
+        if getattr(sim, "settled_at", None) is not None and int(p.get("_idx", -1)) >= sim.settled_at and p["pr"][0] == p["pr"][1] and alloc != 0:
+            fails.append({"oracle": "recv_alloc_released", "detail": "%s: the receive window is empty (base = end = %s) but %d bytes of receive allocation are still counted: "
+                          "the next packets within the advertised limit would be discarded" % (ep, p["pr"][0], alloc), "signature": {"oracle": "recv_alloc_released"}}); break
         sa, smx = int(p["ps"][2]), int(p["ps"][3])
         if sa > smx:
             fails.append({"oracle": "send_alloc_bound", "detail": "%s: send alloc %d > peer limit %d" % (ep, sa, smx), "signature": {"oracle": "send_alloc_bound"}}); break
